@@ -113,8 +113,8 @@ def run(ctx):
         cfgs = [("N=1 r=2 eps=1/8 L=4 limit=14 Vals={0,1,2}", lip_cfg()), ("N=1 r=3/2 eps=1/8 L=2 limit=14 Vals={0,1,2}", lip_cfg(r="3/2", lip="2")),
                 ("N=1 r=2 eps=1/8 L=1 (flat) limit=14 Vals={0,1/2,1}", lip_cfg(lip="1", vals=("0", "1/2", "1"))),
                 ("N=1 r=3 eps=1/10 L=6 limit=14 Vals={0,1,2,3}", lip_cfg(r="3", eps="1/10", lip="6", vals=("0", "1", "2", "3"))),
-                ("N=1 r=4 eps=1/16 L=8 limit=20 Vals={0,1}", lip_cfg(r="4", eps="1/16", lip="8", vals=("0", "1"), limit=20)),
-                ("N=1 r=2 eps=1/12 L=3 limit=15 Vals={0,1,2}", lip_cfg(eps="1/12", lip="3", limit=15))]
+                ("N=1 r=4 eps=1/10 L=8 limit=14 Vals={0,1}", lip_cfg(r="4", eps="1/10", lip="8", vals=("0", "1"), limit=14)),
+                ("N=1 r=2 eps=1/10 L=3 limit=13 Vals={0,1,2}", lip_cfg(eps="1/10", lip="3", limit=13))]
     jobs = [lambda c=c: run_tlc("AGPLip", c, workers=4, timeout=3300, xmx="10g") for (_, c) in cfgs]
     jobs.append(lambda: run_tlc("AGPLip", lip_cfg(limit=12, invs=("NeverCertifiable",)), workers=2, timeout=600))
     res = run_batches(jobs, max_workers=4)
